@@ -388,7 +388,18 @@ __CPROVER_assigns();
 #define ODAY(f) DAYORD((f).y, (f).m, (f).d)
 #define OHOUR(f) (ODAY(f) * 24 + (f).hh)
 #define OMIN(f) (OHOUR(f) * 60 + (f).mm)
-#define OSEC(f) (OMIN(f) * 60 + (f).ss)
+#define OSEC_DEF(f) (OMIN(f) * 60 + (f).ss)
+#ifdef OSEC_OPAQUE
+/* Units that only relate second ordinals to each other (the zone kernel) take the second ordinal of a civil second as an
+ * opaque symbol: every contract mentioning OSEC was proved for its definition OSEC_DEF, so it holds for the symbol's intended
+ * reading, and obligations proved for an arbitrary symbol hold for that reading in particular. */
+Z __CPROVER_uninterpreted_osec(year_t y, int m, int d, int hh, int mm, int ss);
+#define OSEC(f) __CPROVER_uninterpreted_osec((f).y, (f).m, (f).d, (f).hh, (f).mm, (f).ss)
+#define REVEAL_OSEC(f) __CPROVER_assume(OSEC(f) == OSEC_DEF(f))
+#else
+#define OSEC(f) OSEC_DEF(f)
+#define REVEAL_OSEC(f)
+#endif
 #define REPRDAY(u) (ORD_MIN <= (u) && (u) <= ORD_MAX)
 #undef REPR_second
 #undef REPR_minute
